@@ -26,7 +26,7 @@ for sid in sys.argv[2:]:
     P, M = sid.split("-")
     src = os.path.join(root, P, M)
     dst = os.path.join(V, "seeded", sid)
-    wt = "/tmp/seeds/wt-" + P
+    wt = os.environ.get("SEED_WT_PREFIX", "/tmp/seeds/wt-") + P
     if not os.path.isfile(os.path.join(src, "patch.diff")):
         print(sid, "no patch"); continue
     os.makedirs(dst, exist_ok=True)
@@ -35,10 +35,10 @@ for sid in sys.argv[2:]:
             shutil.copy(os.path.join(src, f), dst)
     rc, out = sh("%s/tools/seedconfirm.sh %s %s" % (V, dst, wt))
     confirmed = out.strip().splitlines()[-1] if out.strip() else "NOT-CONFIRMED: no output"
-    meta = {"id": sid, "property": P, "needs_to_manifest": needs.get(sid, ""),
+    meta = {"id": sid, "property": P, "needs_to_manifest": needs.get(sid, "") or (open(os.path.join(src, "needs.txt")).read().strip() if os.path.isfile(os.path.join(src, "needs.txt")) else ""),
             "repo_commit": sh("git -C /repo rev-parse --short HEAD")[1],
             "confirmation": {"cmd": "tools/seedconfirm.sh seeded/%s <scratch worktree>" % sid, "result": confirmed},
-            "origin": "fresh sub-agent given only the property text and a scratch worktree (wave 8)"}
+            "origin": "fresh sub-agent given only the property text and a scratch worktree (wave %s)" % os.environ.get("SEED_WAVE", "8")}
     if confirmed.startswith("CONFIRMED"):
         sh("git -C %s checkout -q -- . ; git -C %s clean -qfd" % (wt, wt))
         rc, out = sh("git -C %s apply %s/patch.diff" % (wt, dst))
